@@ -2,7 +2,9 @@
    each replaced by the smallest rune of its simple-folding orbit).  What the IRI theorems need of the folding
    table is the decidable condition [fold_tab_ok]: no non-ASCII rune folds onto an ASCII rune other than "K" and
    "S" - so every ASCII byte that is not a letter stands for itself only, and so does every hex digit up to
-   ASCII letter case.  Generic in the table; instantiated with the generated one by vm_compute. *)
+   ASCII letter case.  Generic in the table; instantiated with the generated one by vm_compute.
+   The string lemmas are also generic in what an invalid byte decodes to (Utf8.runes_with): they hold of
+   strings.EqualFold ([ucanon], U+FFFD) and of iri.go equalFold ([scanon], the byte kept apart as 0x110000 + b). *)
 From AP.Model Require Import Prelude Bytes Url IriEq IriNf Vocab Pred CollIri Utf8 FoldTab Fold.
 From AP.Proofs Require Import NlvP LowerP Utf8P.
 
@@ -16,8 +18,17 @@ Qed.
 Section Tab.
   Variable tab : list (N * N).
   Hypothesis tab_ok : fold_tab_ok tab = true.
+  Variable err : byte -> N.
+  Hypothesis err_big : forall b, (128 <= err b)%N.
   Notation cn := (canon_with tab).
-  Notation uc := (ucanon_with tab).
+  Notation uc := (fun s => map (canon_with tab) (runes_with err s)).
+
+  Lemma tab_ok_entry k v : In (k, v) tab ->
+    (128 <= k)%N /\ ((128 <= v)%N \/ v = 75%N \/ v = 83%N) /\ (k < rune_limit)%N /\ (v < rune_limit)%N.
+  Proof.
+    intros E. unfold fold_tab_ok in tab_ok. rewrite forallb_forall in tab_ok. specialize (tab_ok _ E). cbn [fst snd] in tab_ok.
+    rewrite !andb_true_iff, !orb_true_iff, !N.leb_le, !N.eqb_eq, !N.ltb_lt in tab_ok. tauto.
+  Qed.
 
   Lemma tab_lookup_cases r t : tab_lookup r t = r \/ In (r, tab_lookup r t) t.
   Proof.
@@ -37,8 +48,26 @@ Section Tab.
   Proof.
     intros H. unfold canon_with. assert ((r <? 128)%N = false) as -> by (apply N.ltb_ge; exact H).
     destruct (tab_lookup_cases r tab) as [E|E]; [rewrite E; left; exact H|].
-    unfold fold_tab_ok in tab_ok. rewrite forallb_forall in tab_ok. specialize (tab_ok _ E). cbn [fst snd] in tab_ok.
-    rewrite andb_true_iff, !orb_true_iff, N.leb_le, N.leb_le, !N.eqb_eq in tab_ok. tauto.
+    destruct (tab_ok_entry _ _ E) as [_ [T _]]. exact T.
+  Qed.
+
+  (* the numbers that stand for invalid bytes (>= 0x110000) are their own canonical form, and of nothing else *)
+  Lemma canon_limit r : (r < rune_limit)%N -> (cn r < rune_limit)%N.
+  Proof.
+    intros H. unfold canon_with. destruct (r <? 128)%N eqn:A.
+    - apply N.ltb_lt in A. pose proof (ascii_canon_lt r A). unfold rune_limit. lia.
+    - destruct (tab_lookup_cases r tab) as [E|E]; [rewrite E; exact H|]. destruct (tab_ok_entry _ _ E) as [_ [_ [_ T]]]. exact T.
+  Qed.
+  Lemma canon_above r : (rune_limit <= r)%N -> cn r = r.
+  Proof.
+    intros H. unfold canon_with. assert ((r <? 128)%N = false) as -> by (apply N.ltb_ge; unfold rune_limit in H; lia).
+    destruct (tab_lookup_cases r tab) as [E|E]; [exact E|]. destruct (tab_ok_entry _ _ E) as [_ [_ [T _]]]. lia.
+  Qed.
+  Lemma canon_above_inv x r : (rune_limit <= r)%N -> cn x = r -> x = r.
+  Proof.
+    intros H E. destruct (N.lt_ge_cases x rune_limit) as [L|G].
+    - pose proof (canon_limit x L). lia.
+    - rewrite (canon_above x G) in E. exact E.
   Qed.
 
   (* an ASCII rune that is not a letter is the canonical form of itself only *)
@@ -69,16 +98,16 @@ Section Tab.
 
   (* ---- strings ---- *)
   Lemma ucanon_nil s : uc s = [] -> s = [].
-  Proof. unfold ucanon_with. intros H. apply map_eq_nil in H. apply runes_nil. exact H. Qed.
+  Proof. cbv beta. intros H. apply map_eq_nil in H. apply (runes_nil err). exact H. Qed.
 
   Lemma ucanon_app_ascii x c y : is_asciib c = true -> uc (x ++ c :: y) = uc x ++ cn (byteN c) :: uc y.
-  Proof. intros H. unfold ucanon_with. rewrite (runes_app_ascii x c y H), map_app. reflexivity. Qed.
+  Proof. intros H. cbv beta. rewrite (runes_app_ascii err x c y H), map_app. reflexivity. Qed.
 
   Lemma ucanon_app_valid x y : utf8_valid x = true -> uc (x ++ y) = uc x ++ uc y.
-  Proof. intros H. unfold ucanon_with. rewrite (runes_app_valid x y H), map_app. reflexivity. Qed.
+  Proof. intros H. cbv beta. rewrite (runes_app_valid err x y H), map_app. reflexivity. Qed.
 
   Lemma ucanon_app_sync x y : starts y -> uc (x ++ y) = uc x ++ uc y.
-  Proof. intros H. unfold ucanon_with. rewrite (runes_app_sync x y H), map_app. reflexivity. Qed.
+  Proof. intros H. cbv beta. rewrite (runes_app_sync err x y H), map_app. reflexivity. Qed.
 
   Lemma ucanon_cons_ascii c y : is_asciib c = true -> uc (c :: y) = cn (byteN c) :: uc y.
   Proof. intros H. apply (ucanon_app_ascii [] c y H). Qed.
@@ -92,16 +121,16 @@ Section Tab.
   (* a delimiter occurs in the canonical form exactly when it occurs in the string *)
   Lemma ucanon_in_delim s c : is_delim c = true -> (In (byteN c) (uc s) <-> In c s).
   Proof.
-    intros Hc. unfold ucanon_with. rewrite in_map_iff. split.
+    intros Hc. cbv beta. rewrite in_map_iff. split.
     - intros [x [E Hx]]. apply (canon_delim (byteN c) x Hc) in E. subst x.
-      apply (runes_in_ascii s c (delim_ascii c Hc)). exact Hx.
+      apply (runes_in_ascii err err_big s c (delim_ascii c Hc)). exact Hx.
     - intros H. exists (byteN c). split; [apply canon_delim_fixed; exact Hc|].
-      apply (runes_in_ascii s c (delim_ascii c Hc)). exact H.
+      apply (runes_in_ascii err err_big s c (delim_ascii c Hc)). exact H.
   Qed.
 
   Lemma ucanon_ascii s : forallb is_asciib s = true -> uc s = map (fun b => ascii_canon (byteN b)) s.
   Proof.
-    intros H. unfold ucanon_with. rewrite (runes_ascii s H), map_map. apply map_ext_in. intros b Hb.
+    intros H. cbv beta. rewrite (runes_ascii err s H), map_map. apply map_ext_in. intros b Hb.
     apply canon_ascii. rewrite forallb_forall in H. specialize (H b Hb). unfold is_asciib in H. apply N.ltb_lt. exact H.
   Qed.
 End Tab.
@@ -110,21 +139,6 @@ End Tab.
 Lemma fold_tab_is_ok : fold_tab_ok fold_tab = true.
 Proof. vm_compute. reflexivity. Qed.
 
-Lemma ufold_eqb_eq a b : ufold_eqb a b = true <-> ucanon a = ucanon b.
-Proof. unfold ufold_eqb. apply nlist_eqb_eq. Qed.
-
-Lemma ufold_eqb_refl a : ufold_eqb a a = true.
-Proof. apply ufold_eqb_eq. reflexivity. Qed.
-Lemma ufold_eqb_sym a b : ufold_eqb a b = ufold_eqb b a.
-Proof.
-  destruct (ufold_eqb a b) eqn:E.
-  - symmetry. apply ufold_eqb_eq. symmetry. apply ufold_eqb_eq. exact E.
-  - destruct (ufold_eqb b a) eqn:E'; [|reflexivity]. apply ufold_eqb_eq in E'. symmetry in E'. apply ufold_eqb_eq in E'. congruence.
-Qed.
-Lemma ufold_eqb_trans a b c : ufold_eqb a b = true -> ufold_eqb b c = true -> ufold_eqb a c = true.
-Proof. rewrite !ufold_eqb_eq. congruence. Qed.
-
-(* on ASCII strings it is the ASCII folding of Model/Prelude.v *)
 Lemma ascii_canon_lower_all :
   forallb (fun a => forallb (fun b => implb (is_asciib a && is_asciib b)
      (Bool.eqb (ascii_canon (byteN a) =? ascii_canon (byteN b))%N (Byte.eqb (lower_byte a) (lower_byte b)))) all_bytes) all_bytes = true.
@@ -138,30 +152,132 @@ Proof.
   rewrite <- N.eqb_eq, <- beqb_eq, S. tauto.
 Qed.
 
+(* either folding: the kernel of its canonical form; on ASCII strings the ASCII folding of Model/Prelude.v *)
+Section Either.
+  Variable err : byte -> N.
+  Notation gc := (fun s => map canon (runes_with err s)).
+  Notation geq := (fun a b => nlist_eqb (gc a) (gc b)).
+
+  Lemma gfold_eqb_eq a b : geq a b = true <-> gc a = gc b.
+  Proof. apply nlist_eqb_eq. Qed.
+  Lemma gfold_eqb_refl a : geq a a = true.
+  Proof. apply gfold_eqb_eq. reflexivity. Qed.
+  Lemma gfold_eqb_sym a b : geq a b = geq b a.
+  Proof.
+    destruct (geq a b) eqn:E.
+    - symmetry. apply gfold_eqb_eq. symmetry. apply gfold_eqb_eq. exact E.
+    - destruct (geq b a) eqn:E'; [|reflexivity]. apply gfold_eqb_eq in E'. symmetry in E'. apply gfold_eqb_eq in E'. congruence.
+  Qed.
+  Lemma gfold_eqb_trans a b c : geq a b = true -> geq b c = true -> geq a c = true.
+  Proof. rewrite !gfold_eqb_eq. congruence. Qed.
+
+  Lemma gcanon_ascii_lower a : forall b, forallb is_asciib a = true -> forallb is_asciib b = true ->
+    (gc a = gc b <-> lower a = lower b).
+  Proof.
+    intros b Ha Hb. pose proof (ucanon_ascii fold_tab err a Ha) as Ea. pose proof (ucanon_ascii fold_tab err b Hb) as Eb.
+    cbv beta in Ea, Eb. unfold canon. rewrite Ea, Eb. clear Ea Eb.
+    revert b Ha Hb. induction a as [|x a IH]; intros [|y b] Ha Hb; simpl; split; try discriminate; try reflexivity.
+    - simpl in Ha, Hb. rewrite andb_true_iff in Ha, Hb. destruct Ha as [Hx Ha], Hb as [Hy Hb].
+      intros H. inversion H as [[H1 H2]]. f_equal; [apply (ascii_canon_lower x y Hx Hy); exact H1|apply (IH b Ha Hb); exact H2].
+    - simpl in Ha, Hb. rewrite andb_true_iff in Ha, Hb. destruct Ha as [Hx Ha], Hb as [Hy Hb].
+      intros H. inversion H as [[H1 H2]]. f_equal; [apply (ascii_canon_lower x y Hx Hy); exact H1|apply (IH b Ha Hb); exact H2].
+  Qed.
+
+  Lemma gfold_eqb_ascii a b : forallb is_asciib a = true -> forallb is_asciib b = true -> geq a b = fold_eqb a b.
+  Proof.
+    intros Ha Hb. pose proof (gcanon_ascii_lower a b Ha Hb) as C.
+    destruct (geq a b) eqn:E1, (fold_eqb a b) eqn:E2; try reflexivity.
+    - apply gfold_eqb_eq in E1. apply C in E1. unfold fold_eqb in E2. apply bytes_eqb_neq in E2. contradiction.
+    - unfold fold_eqb in E2. apply bytes_eqb_eq in E2. apply C in E2. apply gfold_eqb_eq in E2. congruence.
+  Qed.
+End Either.
+
+(* ---- strings.EqualFold ---- *)
+Lemma ufold_eqb_eq a b : ufold_eqb a b = true <-> ucanon a = ucanon b.
+Proof. unfold ufold_eqb. apply nlist_eqb_eq. Qed.
+Lemma ufold_eqb_refl a : ufold_eqb a a = true.
+Proof. apply (gfold_eqb_refl lax_err). Qed.
+Lemma ufold_eqb_sym a b : ufold_eqb a b = ufold_eqb b a.
+Proof. apply (gfold_eqb_sym lax_err). Qed.
+Lemma ufold_eqb_trans a b c : ufold_eqb a b = true -> ufold_eqb b c = true -> ufold_eqb a c = true.
+Proof. apply (gfold_eqb_trans lax_err). Qed.
 Lemma ucanon_ascii_lower a : forall b, forallb is_asciib a = true -> forallb is_asciib b = true ->
   (ucanon a = ucanon b <-> lower a = lower b).
-Proof.
-  intros b Ha Hb. unfold ucanon. rewrite (ucanon_ascii fold_tab a Ha), (ucanon_ascii fold_tab b Hb).
-  revert b Ha Hb. induction a as [|x a IH]; intros [|y b] Ha Hb; simpl; split; try discriminate; try reflexivity.
-  - simpl in Ha, Hb. rewrite andb_true_iff in Ha, Hb. destruct Ha as [Hx Ha], Hb as [Hy Hb].
-    intros H. inversion H as [[H1 H2]]. f_equal; [apply (ascii_canon_lower x y Hx Hy); exact H1|apply (IH b Ha Hb); exact H2].
-  - simpl in Ha, Hb. rewrite andb_true_iff in Ha, Hb. destruct Ha as [Hx Ha], Hb as [Hy Hb].
-    intros H. inversion H as [[H1 H2]]. f_equal; [apply (ascii_canon_lower x y Hx Hy); exact H1|apply (IH b Ha Hb); exact H2].
-Qed.
-
+Proof. apply (gcanon_ascii_lower lax_err). Qed.
 Lemma ufold_eqb_ascii a b : forallb is_asciib a = true -> forallb is_asciib b = true -> ufold_eqb a b = fold_eqb a b.
+Proof. apply (gfold_eqb_ascii lax_err). Qed.
+
+(* ---- iri.go equalFold ---- *)
+Lemma sfold_eqb_eq a b : sfold_eqb a b = true <-> scanon a = scanon b.
+Proof. unfold sfold_eqb. apply nlist_eqb_eq. Qed.
+Lemma sfold_eqb_refl a : sfold_eqb a a = true.
+Proof. apply (gfold_eqb_refl strict_err). Qed.
+Lemma sfold_eqb_sym a b : sfold_eqb a b = sfold_eqb b a.
+Proof. apply (gfold_eqb_sym strict_err). Qed.
+Lemma sfold_eqb_trans a b c : sfold_eqb a b = true -> sfold_eqb b c = true -> sfold_eqb a c = true.
+Proof. apply (gfold_eqb_trans strict_err). Qed.
+Lemma scanon_ascii_lower a : forall b, forallb is_asciib a = true -> forallb is_asciib b = true ->
+  (scanon a = scanon b <-> lower a = lower b).
+Proof. apply (gcanon_ascii_lower strict_err). Qed.
+Lemma sfold_eqb_ascii a b : forallb is_asciib a = true -> forallb is_asciib b = true -> sfold_eqb a b = fold_eqb a b.
+Proof. apply (gfold_eqb_ascii strict_err). Qed.
+
+(* on valid UTF-8 the two are one *)
+Lemma scanon_valid s : utf8_valid s = true -> scanon s = ucanon s.
+Proof. intros V. unfold scanon, scanon_with, ucanon, ucanon_with, srunes, runes. rewrite (runes_valid_any strict_err lax_err s V). reflexivity. Qed.
+Lemma sfold_eqb_valid a b : utf8_valid a = true -> utf8_valid b = true -> sfold_eqb a b = ufold_eqb a b.
+Proof. intros Va Vb. unfold sfold_eqb, ufold_eqb. rewrite (scanon_valid a Va), (scanon_valid b Vb). reflexivity. Qed.
+
+(* strings.EqualFold is the coarser one: it forgets which invalid byte stood where *)
+Definition collapse (n : N) : N := if (rune_limit <=? n)%N then rune_error else n.
+Lemma runes_collapse_n n : forall s, length s <= n -> runes s = map collapse (srunes s).
 Proof.
-  intros Ha Hb. pose proof (ucanon_ascii_lower a b Ha Hb) as C.
-  destruct (ufold_eqb a b) eqn:E1, (fold_eqb a b) eqn:E2; try reflexivity.
-  - apply ufold_eqb_eq in E1. apply C in E1. unfold fold_eqb in E2. apply bytes_eqb_neq in E2. contradiction.
-  - unfold fold_eqb in E2. apply bytes_eqb_eq in E2. apply C in E2. apply ufold_eqb_eq in E2. congruence.
+  assert (C : forall x, (x < rune_limit)%N -> collapse x = x).
+  { intros x H. unfold collapse. apply N.leb_gt in H. rewrite H. reflexivity. }
+  assert (E : forall b, collapse (strict_err b) = lax_err b).
+  { intros b. unfold collapse, strict_err. assert ((rune_limit <=? rune_limit + byteN b)%N = true) as -> by (apply N.leb_le; lia). reflexivity. }
+  assert (A : forall b, (byteN b < rune_limit)%N).
+  { intros b. pose proof (Byte.to_N_bounded b). unfold byteN, rune_limit. lia. }
+  induction n as [|n IH]; intros s Hl; [destruct s; [reflexivity|simpl in Hl; lia]|].
+  destruct s as [|p0 r]; [reflexivity|]. simpl in Hl. unfold runes, srunes in *. rewrite !runes_cons.
+  destruct (lead_of p0) as [| | |lo hi|lo hi] eqn:L.
+  - cbn [map]. rewrite (C _ (A p0)). f_equal. apply IH. lia.
+  - cbn [map]. rewrite E. f_equal. apply IH. lia.
+  - destruct r as [|b1 r1]; [cbn [map]; rewrite E; reflexivity|]. destruct (is_cont b1).
+    + cbn [map]. rewrite C by (apply rune2_limit; exact L). f_equal. apply IH. simpl in Hl. lia.
+    + cbn [map]. rewrite E. f_equal. apply IH. lia.
+  - destruct r as [|b1 [|b2 r2]]; try (cbn [map]; rewrite E; f_equal; apply IH; simpl in *; lia).
+    destruct (is_cont b1 && in_rng lo hi b1 && is_cont b2) eqn:Cd.
+    + cbn [map]. rewrite C by (apply (rune3_limit p0 b1 b2 lo hi L)). f_equal. apply IH. simpl in Hl. lia.
+    + cbn [map]. rewrite E. f_equal. apply IH. lia.
+  - destruct r as [|b1 [|b2 [|b3 r3]]]; try (cbn [map]; rewrite E; f_equal; apply IH; simpl in *; lia).
+    destruct (is_cont b1 && in_rng lo hi b1 && is_cont b2 && is_cont b3) eqn:Cd.
+    + cbn [map]. rewrite C; [f_equal; apply IH; simpl in Hl; lia|]. apply (rune4_limit p0 b1 b2 b3 lo hi L).
+      apply andb_true_iff in Cd. destruct Cd as [Cd _]. apply andb_true_iff in Cd. destruct Cd as [Cd _]. apply andb_true_iff in Cd. tauto.
+    + cbn [map]. rewrite E. f_equal. apply IH. lia.
 Qed.
+Lemma runes_collapse s : runes s = map collapse (srunes s).
+Proof. apply (runes_collapse_n (length s)). lia. Qed.
+
+Lemma canon_collapse n : canon (collapse n) = collapse (canon n).
+Proof.
+  unfold collapse, canon. destruct (rune_limit <=? n)%N eqn:G.
+  - apply N.leb_le in G. rewrite (canon_above fold_tab fold_tab_is_ok n G). apply N.leb_le in G. rewrite G. vm_compute. reflexivity.
+  - apply N.leb_gt in G. pose proof (canon_limit fold_tab fold_tab_is_ok n G) as L. apply N.leb_gt in L. rewrite L. reflexivity.
+Qed.
+Lemma ucanon_collapse s : ucanon s = map collapse (scanon s).
+Proof.
+  unfold ucanon, ucanon_with, scanon, scanon_with. rewrite runes_collapse, !map_map. apply map_ext. intros n. apply canon_collapse.
+Qed.
+Lemma sfold_ufold a b : sfold_eqb a b = true -> ufold_eqb a b = true.
+Proof. rewrite sfold_eqb_eq, ufold_eqb_eq, !ucanon_collapse. intros ->. reflexivity. Qed.
 
 (* the special orbits: the witnesses that the carve-out of the ASCII model was needed *)
 Lemma kelvin_folds : ufold_eqb (hx "e284aa") (B "k") = true /\ ufold_eqb (hx "c5bf") (B "S") = true /\
   fold_eqb (hx "e284aa") (B "k") = false.
 Proof. repeat split; vm_compute; reflexivity. Qed.
 
-(* any two invalid bytes are equal *)
-Lemma invalid_bytes_fold : ufold_eqb (hx "ff") (hx "fe") = true /\ ufold_eqb (hx "ff") (hx "efbfbd") = true.
-Proof. split; vm_compute; reflexivity. Qed.
+(* strings.EqualFold: any two invalid bytes are equal; iri.go equalFold tells them apart, and from U+FFFD *)
+Lemma invalid_bytes_fold : ufold_eqb (hx "ff") (hx "fe") = true /\ ufold_eqb (hx "ff") (hx "efbfbd") = true /\
+  sfold_eqb (hx "ff") (hx "fe") = false /\ sfold_eqb (hx "ff") (hx "efbfbd") = false /\ sfold_eqb (hx "41ff") (hx "61ff") = true.
+Proof. repeat split; vm_compute; reflexivity. Qed.
